@@ -28,6 +28,7 @@ import LbzVerif.Lemmas.Race.SchedDProt
 import LbzVerif.Lemmas.Race.SchedDRelease
 import LbzVerif.Lemmas.Race.SchedDWitness
 import LbzVerif.Lemmas.Race.SchedDTie
+import LbzVerif.Lemmas.Race.SchedDThread
 import LbzVerif.Lemmas.SchedD.InSlots
 
 namespace LbzVerif.Props.C12
@@ -687,5 +688,33 @@ example :
     D.writesVar (D.fp Lemmas.SchedD.cfgF4 D.wD (.scanEnd 2 1)) .scanQ = true ∧
     D.writesVar (D.fp Lemmas.SchedD.cfgF4 D.wD (.scanEnd 2 1)) .eof = false := by
   decide +kernel
+
+/-- **expand_footprint_thread**: well-formedness of the decompression
+    annotation — the accesses listed for a section are made by the section's
+    thread (reader / writer / parser / the worker in that phase / a job-less
+    worker `i`) -/
+theorem expand_footprint_thread (c : Model.SchedD.Cfg) (s : Model.SchedD.State) (x : D.Sec) :
+    ∀ a ∈ D.fp c s x, a.thread = x.thread :=
+  D.fp_thread c s x
+
+/-- **expand_race_free_sections**: race freedom of decompression in terms of
+    sections — two sections of different threads that are in progress in the
+    same reachable state touch a common variable or heap object, one of them
+    writing, only under a common lock -/
+theorem expand_race_free_sections {c : Model.SchedD.Cfg} (hW : 0 < c.W) (hn : 1 ≤ c.n)
+    {s : Model.SchedD.State} (h : Model.SchedD.Reach c s) (hf : s.failed = false) {x y : D.Sec}
+    (hx : D.inProg c s x) (hy : D.inProg c s y) (hne : x.thread ≠ y.thread) {a b : D.Acc}
+    (ha : a ∈ D.fp c s x) (hb : b ∈ D.fp c s y) (hv : a.var = b.var)
+    (hw : a.write = true ∨ b.write = true) : ∃ l, l ∈ a.locks ∧ l ∈ b.locks := by
+  refine expand_race_free' hW hn h hf hx hy ha hb ⟨?_, hv, hw⟩
+  rw [expand_footprint_thread c s x a ha, expand_footprint_thread c s y b hb]
+  exact hne
+
+/-- non-vacuous: in the reachable witness state `wD` the retriever's and the
+    scanner's end sections are both in progress and belong to different threads -/
+example : D.inProg Lemmas.SchedD.cfgF4 D.wD (.retrEnd D.wJob (some 1)) ∧
+    D.inProg Lemmas.SchedD.cfgF4 D.wD (.scanEnd 2 1) ∧
+    (D.Sec.retrEnd D.wJob (some 1)).thread ≠ (D.Sec.scanEnd 2 1).thread := by
+  refine ⟨?_, ?_, by decide⟩ <;> (simp only [D.inProg]; decide)
 
 end LbzVerif.Props.C12
